@@ -97,6 +97,89 @@ def nontrivial(env, sess):
     return any(info['left'] is not None and info['children'] for info in env.scope_inst.values())
 
 
+def spawned_during_shutdown(case):
+    """the body of a block ends while none (or all) of its children is alive any more; in that very
+    time step - before or after the owner announces the shutdown - somebody who holds the scope
+    hands it another task: a task that is accepted is waited for and runs to its end ("children
+    spawned during shutdown are waited for as well"), one that is refused never runs"""
+    import usim
+    from usim import time, Scope, instant
+    from usim._primitives.context import ScopeClosed
+    from ..probe import Session
+    rng = random.Random('%s/%s/c04-shutdown' % (case['seed'], case['index']))
+    body_ends = rng.choice([1, 2])
+    children = rng.choice([0, 0, 1, 2])           # all of them done before the body ends
+    spawn_at = rng.choice([body_ends, body_ends, body_ends - 0.5, body_ends + 0.5])
+    helper_first = rng.random() < 0.5
+    extra_turns = rng.randint(0, 2)
+    log = []
+    box = {}
+
+    async def work(name, duration):
+        log.append((name, 'begun', time.now))
+        await (time + duration)
+        log.append((name, 'done', time.now))
+
+    async def helper():
+        await (time + spawn_at)
+        for _ in range(extra_turns):
+            await instant
+        try:
+            box['scope'].do(work('late', 1))
+            log.append(('late', 'accepted', time.now))
+        except ScopeClosed:
+            log.append(('late', 'refused', time.now))
+
+    async def owner():
+        async with Scope() as scope:
+            box['scope'] = scope
+            for number in range(children):
+                scope.do(work('early%d' % number, 0.25))
+            await (time + body_ends)
+        log.append(('block', 'left', time.now))
+
+    async def main():
+        async with Scope() as outer:
+            for coro in ([helper(), owner()] if helper_first else [owner(), helper()]):
+                outer.do(coro)
+
+    sess = Session()
+    root = main()
+    root.__name__ = root.__qualname__ = 'shutdown'
+    outcome = sess.run(root)
+    violations = [dict(v) for v in sess.violations if v['mechanism'].startswith('kernel-')]
+    what = 'a block with %d finished children whose body ends at %r; at %r (+%d turns, queued %s) ' \
+           'somebody hands it a task' % (children, body_ends, spawn_at, extra_turns,
+                                          'earlier' if helper_first else 'later')
+    accepted = ('late', 'accepted', spawn_at) in log
+    left = [entry[2] for entry in log if entry[:2] == ('block', 'left')]
+    if outcome[0] != 'ok':
+        violations.append({'mechanism': 'c04:run-failed', 'msg': '%s: %r' % (what, outcome[1])})
+    elif accepted:
+        if ('late', 'done', spawn_at + 1) not in log:
+            violations.append({'mechanism': 'c04:normal-exit-child-not-completed',
+                               'msg': '%s: it was accepted but did not run to its end (%s)' % (
+                                   what, log)})
+        elif not left or left[0] != max(body_ends, spawn_at + 1):
+            violations.append({'mechanism': 'c04:child-alive-at-exit',
+                               'msg': '%s: the block was left at %s (%s)' % (what, left, log)})
+    elif any(entry[0] == 'late' and entry[1] in ('begun', 'done') for entry in log) \
+            or left != [body_ends]:
+        violations.append({'mechanism': 'c04:spawn-into-ended-scope-accepted',
+                           'msg': '%s: it was refused, yet %s' % (what, log)})
+    for vio in violations:
+        vio['case'] = dict(case)
+    try:
+        root.close()
+    except BaseException:  # noqa: B902
+        pass
+    return {'evals': 1, 'sigs': [sess.signature()], 'violations': violations,
+            'stats': {'spawned_during_shutdown': 1, 'accepted_during_shutdown': int(accepted),
+                      'activations': sess.n}}
+
+
 def run_case(case):
+    if case.get('plan') is None and case['index'] % 25 == 7:
+        return spawned_during_shutdown(case)
     program, rng = build(case)
     return common.explore(case, program, rng, relevant, nontrivial)
